@@ -88,7 +88,24 @@ func buildFields(rt reflect.Type, u byte, embedded, omitEmpty bool) (fa []*finfo
 	return
 }
 
-func buildTagFields(rt reflect.Type, out, pretty, embedded, omitEmpty bool) (fa []*finfo) {
+// embeddedIn reports whether rt is one of the types the field builders are
+// inside of. A type that embeds (a pointer to) itself, or two types that embed
+// each other, is not entered again: Go promotes the shallowest field of a
+// name, so the inner occurrence adds nothing.
+func embeddedIn(rt reflect.Type, outer []reflect.Type) bool {
+	for _, ot := range outer {
+		if ot == rt {
+			return true
+		}
+	}
+	return false
+}
+
+func buildTagFields(rt reflect.Type, out, pretty, embedded, omitEmpty bool, outer ...reflect.Type) (fa []*finfo) {
+	if embeddedIn(rt, outer) {
+		return nil
+	}
+	outer = append(outer, rt)
 	for i := rt.NumField() - 1; 0 <= i; i-- {
 		f := rt.Field(i)
 		name := []byte(f.Name)
@@ -97,14 +114,14 @@ func buildTagFields(rt reflect.Type, out, pretty, embedded, omitEmpty bool) (fa 
 		}
 		if f.Anonymous && !out {
 			if f.Type.Kind() == reflect.Ptr {
-				for _, fi := range buildTagFields(f.Type.Elem(), out, pretty, embedded, omitEmpty) {
+				for _, fi := range buildTagFields(f.Type.Elem(), out, pretty, embedded, omitEmpty, outer...) {
 					fi.index = append([]int{i}, fi.index...)
 					fi.iAppend = skipNilEmbedded(fi.iAppend)
 					fi.Append = fi.iAppend
 					fa = append(fa, fi)
 				}
 			} else {
-				for _, fi := range buildTagFields(f.Type, out, pretty, embedded, omitEmpty) {
+				for _, fi := range buildTagFields(f.Type, out, pretty, embedded, omitEmpty, outer...) {
 					fi.index = append([]int{i}, fi.index...)
 					fi.offset += f.Offset
 					fa = append(fa, fi)
@@ -143,7 +160,11 @@ func buildTagFields(rt reflect.Type, out, pretty, embedded, omitEmpty bool) (fa 
 	return
 }
 
-func buildExactFields(rt reflect.Type, out, pretty, embedded, omitEmpty bool) (fa []*finfo) {
+func buildExactFields(rt reflect.Type, out, pretty, embedded, omitEmpty bool, outer ...reflect.Type) (fa []*finfo) {
+	if embeddedIn(rt, outer) {
+		return nil
+	}
+	outer = append(outer, rt)
 	for i := rt.NumField() - 1; 0 <= i; i-- {
 		f := rt.Field(i)
 		name := []byte(f.Name)
@@ -152,14 +173,14 @@ func buildExactFields(rt reflect.Type, out, pretty, embedded, omitEmpty bool) (f
 		}
 		if f.Anonymous && !out {
 			if f.Type.Kind() == reflect.Ptr {
-				for _, fi := range buildExactFields(f.Type.Elem(), out, pretty, embedded, omitEmpty) {
+				for _, fi := range buildExactFields(f.Type.Elem(), out, pretty, embedded, omitEmpty, outer...) {
 					fi.index = append([]int{i}, fi.index...)
 					fi.iAppend = skipNilEmbedded(fi.iAppend)
 					fi.Append = fi.iAppend
 					fa = append(fa, fi)
 				}
 			} else {
-				for _, fi := range buildExactFields(f.Type, out, pretty, embedded, omitEmpty) {
+				for _, fi := range buildExactFields(f.Type, out, pretty, embedded, omitEmpty, outer...) {
 					fi.index = append([]int{i}, fi.index...)
 					fi.offset += f.Offset
 					fa = append(fa, fi)
@@ -172,7 +193,11 @@ func buildExactFields(rt reflect.Type, out, pretty, embedded, omitEmpty bool) (f
 	return
 }
 
-func buildLowFields(rt reflect.Type, out, pretty, embedded, omitEmpty bool) (fa []*finfo) {
+func buildLowFields(rt reflect.Type, out, pretty, embedded, omitEmpty bool, outer ...reflect.Type) (fa []*finfo) {
+	if embeddedIn(rt, outer) {
+		return nil
+	}
+	outer = append(outer, rt)
 	for i := rt.NumField() - 1; 0 <= i; i-- {
 		f := rt.Field(i)
 		name := []byte(f.Name)
@@ -181,14 +206,14 @@ func buildLowFields(rt reflect.Type, out, pretty, embedded, omitEmpty bool) (fa 
 		}
 		if f.Anonymous && !out {
 			if f.Type.Kind() == reflect.Ptr {
-				for _, fi := range buildLowFields(f.Type.Elem(), out, pretty, embedded, omitEmpty) {
+				for _, fi := range buildLowFields(f.Type.Elem(), out, pretty, embedded, omitEmpty, outer...) {
 					fi.index = append([]int{i}, fi.index...)
 					fi.iAppend = skipNilEmbedded(fi.iAppend)
 					fi.Append = fi.iAppend
 					fa = append(fa, fi)
 				}
 			} else {
-				for _, fi := range buildLowFields(f.Type, out, pretty, embedded, omitEmpty) {
+				for _, fi := range buildLowFields(f.Type, out, pretty, embedded, omitEmpty, outer...) {
 					fi.index = append([]int{i}, fi.index...)
 					fi.offset += f.Offset
 					fa = append(fa, fi)
